@@ -1244,9 +1244,10 @@ def pretty_bracketable_iterable(value, ctx, trailing_comment=None):
     elif isinstance(value, set):
         left, right = LBRACE, RBRACE
 
-    if not value and trailing_comment:
+    if not value and trailing_comment and ctx.depth_left > 0:
         # The comment must not be lost: it goes between the brackets,
-        # or inside the call for set() and subclass instances.
+        # or inside the call for set() and subclass instances. (Beyond
+        # the depth limit the container prints as it does without one.)
         if not (is_native_type and isinstance(value, (list, tuple))):
             return build_fncall(
                 ctx,
